@@ -106,6 +106,10 @@ def gen(rng, tier):
     from driver import cligen
     for c in cligen.cases(rng, ['dedup'], 40 if tier == "quick" else 400):
         yield c
+    for _ in range(3 if tier == "quick" else 30):
+        for flagname, argv in [('--weight-out', ['compress']), ('-l', ['dedup']), ('-o', ['compress']), ('-o', ['dedup'])]:
+            rows = cligen.alignment(rng)
+            yield Case("detgz", [cligen.esc(cligen.fasta(rows)), flagname] + argv, True, "cli-gz-" + argv[0] + flagname)
     for _ in range(2 if tier == "quick" else 20):
         for argv in MULTI_CMDS:
             yield multigen.multi_case(multigen.alignments(rng), argv, "cli-multi-" + "-".join(argv[:2]))
